@@ -57,6 +57,13 @@ func c20OpString(op pkglint.VerifC20Op) string {
 		}
 		return head
 	case "S":
+		if len(op.Fail) > 0 {
+			ks := make([]string, len(op.Fail))
+			for i, k := range op.Fail {
+				ks[i] = strconv.Itoa(k)
+			}
+			return fmt.Sprintf("S.%d.%s", op.View, strings.Join(ks, "+"))
+		}
 		return fmt.Sprintf("S.%d", op.View)
 	case "M":
 		if op.Remove {
@@ -90,6 +97,16 @@ func c20ParseOp(s string) (pkglint.VerifC20Op, bool) {
 		return op, true
 	case len(f) == 2 && f[0] == "S":
 		return pkglint.VerifC20Op{Kind: "S", View: n(1)}, true
+	case len(f) == 3 && f[0] == "S":
+		op = pkglint.VerifC20Op{Kind: "S", View: n(1)}
+		for _, k := range strings.Split(f[2], "+") {
+			v, err := strconv.Atoi(k)
+			if err != nil {
+				return op, false
+			}
+			op.Fail = append(op.Fail, v)
+		}
+		return op, true
 	case len(f) == 3 && f[0] == "M":
 		if f[2] == "~" {
 			return pkglint.VerifC20Op{Kind: "M", Key: n(1), Remove: true}, true
@@ -193,6 +210,11 @@ func c20Cause(s *c20Script, real []pkglint.VerifC20Obs, i int) string {
 		case "S":
 			if op.View < len(viewKey) && viewKey[op.View] == key && fixed[op.View] {
 				cause = "after-save-of-fixed-view"
+				for _, k := range op.Fail {
+					if k == key {
+						cause = "after-failed-save-of-fixed-view"
+					}
+				}
 			}
 		case "M":
 			if op.Key == key {
@@ -281,6 +303,24 @@ func c20Judge(res *Result, tally *c20Tally, s *c20Script, real []pkglint.VerifC2
 						i, strings.Join(s.opStrings()[:i+1], " "), s.Cap, f[len("bookkeeping:"):]))
 			}
 		}
+		if has("once-state-leaked") {
+			violation("C20/line-once-state-survives-load",
+				fmt.Sprintf("Load at step %d of [%s] returned a Line whose Line.once set already holds the mark that was put on the lines of an earlier Load", i, strings.Join(s.opStrings()[:i+1], " ")))
+		}
+		if has("save-failed") {
+			tally.add("saves_that_failed", 1)
+			if i+1 < len(real) {
+				for j := i + 1; j < len(real); j++ {
+					if s.Ops[j].Kind == "L" {
+						for _, k := range s.Ops[i].Fail {
+							if k == s.Ops[j].Key {
+								tally.add("loads_after_failed_save_of_that_file", 1)
+							}
+						}
+					}
+				}
+			}
+		}
 		if has("fix-leaked") {
 			violation("C20/fix-leaks-into-other-view",
 				fmt.Sprintf("the fix at step %d of [%s] changed what another view shows", i, strings.Join(s.opStrings()[:i+1], " ")))
@@ -359,7 +399,11 @@ func c20RunBatch(ctx *Ctx, res *Result, tally *c20Tally, dir string, scripts []*
 // pkglint loads included and checked makefiles).  The spelling of the file name
 // alternates with the position.  Fixes are ReplaceAt(0, 2, " ", "\t") on line 0
 // (it acts in every mode).  "Ma" rewrites a.mk with the next of two contents.
-var c20Alphabet = []string{"La0", "La1", "Lb0", "Lb1", "Lc0", "Lc1", "Xl", "Xp", "Sl", "Sp", "Ma", "Mb"}
+// "Fl"/"Fp" (extended alphabet, round 4): SaveAutofixChanges through the last / previous
+// view while a left-over <file>.pkglint.tmp makes the rewrite of that view's file fail.
+var c20Alphabet = []string{"La0", "La1", "Lb0", "Lb1", "Lc0", "Lc1", "Xl", "Xp", "Sl", "Sp", "Ma", "Mb", "Fl", "Fp"}
+
+const c20BaseSymbols = 12
 
 var c20Initial = map[int]string{0: "V= 1\nW= 2\n", 1: "B= 1\n", 2: "C= 1\nD= 2\n"}
 var c20Variants = []string{"V= 3\n", "V= 1\nW= 2\n"}
@@ -369,6 +413,7 @@ var c20Variants = []string{"V= 3\n", "V= 1\nW= 2\n"}
 func c20Concrete(word []int, mode string, capacity int) (*c20Script, bool) {
 	s := &c20Script{Mode: mode, Cap: capacity, Files: c20Initial, Keys: []int{0, 1, 2}}
 	nviews := 0
+	var viewKeys []int
 	mods := map[int]int{}
 	seenC := false
 	seenB := false
@@ -394,7 +439,8 @@ func c20Concrete(word []int, mode string, capacity int) (*c20Script, bool) {
 			}
 			s.Ops = append(s.Ops, pkglint.VerifC20Op{Kind: "L", Key: key, Spelling: pos % 2, Opts: opts})
 			nviews++
-		case 'X', 'S':
+			viewKeys = append(viewKeys, key)
+		case 'X', 'S', 'F':
 			v := nviews - 1
 			if sym[1] == 'p' {
 				v = nviews - 2
@@ -404,6 +450,8 @@ func c20Concrete(word []int, mode string, capacity int) (*c20Script, bool) {
 			}
 			if sym[0] == 'X' {
 				s.Ops = append(s.Ops, pkglint.VerifC20Op{Kind: "X", View: v, Line: 0, Fix: "A", RawIndex: 0, TextIndex: 2, From: " ", To: "\t"})
+			} else if sym[0] == 'F' {
+				s.Ops = append(s.Ops, pkglint.VerifC20Op{Kind: "S", View: v, Fail: []int{viewKeys[v]}})
 			} else {
 				s.Ops = append(s.Ops, pkglint.VerifC20Op{Kind: "S", View: v})
 			}
@@ -425,6 +473,16 @@ func c20Concrete(word []int, mode string, capacity int) (*c20Script, bool) {
 // words of smaller length are prefixes of these; an operation after the last
 // load or save shows nothing).  shard/nshards splits by the first three symbols.
 func c20Enumerate(length int, shard, nshards int, f func(word []int)) {
+	c20EnumerateExt(length, shard, nshards, false, f)
+}
+
+// ext: over the extended alphabet, only the words that contain a failing save
+// (the others are the words of the base sweep).
+func c20EnumerateExt(length int, shard, nshards int, ext bool, f func(word []int)) {
+	nsym := c20BaseSymbols
+	if ext {
+		nsym = len(c20Alphabet)
+	}
 	word := make([]int, length)
 	split := 3 // the shard is decided by the first three symbols
 	if length < split {
@@ -434,12 +492,23 @@ func c20Enumerate(length int, shard, nshards int, f func(word []int)) {
 	rec = func(pos int, bucket int) {
 		if pos == length {
 			last := c20Alphabet[word[length-1]][0]
+			if ext {
+				hasF := false
+				for _, w := range word {
+					hasF = hasF || w >= c20BaseSymbols
+				}
+				// a failing save shows in the Loads after it
+				if hasF && last == 'L' {
+					f(word)
+				}
+				return
+			}
 			if last == 'L' || last == 'S' {
 				f(word)
 			}
 			return
 		}
-		for w := range c20Alphabet {
+		for w := 0; w < nsym; w++ {
 			if pos == 0 && c20Alphabet[w][0] != 'L' {
 				continue
 			}
@@ -505,7 +574,16 @@ func c20RandomScript(rng *Rng, maxLen int) *c20Script {
 			}
 			s.Ops = append(s.Ops, op)
 		case r < 88:
-			s.Ops = append(s.Ops, pkglint.VerifC20Op{Kind: "S", View: c20PickView(rng, nviews)})
+			op := pkglint.VerifC20Op{Kind: "S", View: c20PickView(rng, nviews)}
+			if rng.Chance(30) {
+				op.Fail = append(op.Fail, Pick(rng, s.Keys))
+				if rng.Chance(30) {
+					if k := Pick(rng, s.Keys); k != op.Fail[0] {
+						op.Fail = append(op.Fail, k)
+					}
+				}
+			}
+			s.Ops = append(s.Ops, op)
 		default:
 			op := pkglint.VerifC20Op{Kind: "M", Key: Pick(rng, s.Keys)}
 			if rng.Chance(10) {
@@ -532,7 +610,7 @@ func c20PickView(rng *Rng, nviews int) int {
 // ---------- worker processes ----------
 
 type c20Job struct {
-	Kind    string `json:"kind"` // exh | rand
+	Kind    string `json:"kind"` // exh | exhf (extended alphabet, words with a failing save) | rand
 	Mode    string `json:"mode"`
 	Cap     int    `json:"cap"`
 	Len     int    `json:"len"`
@@ -574,8 +652,8 @@ func c20Worker(ctx *Ctx) *Result {
 			batch = batch[:0]
 		}
 		switch job.Kind {
-		case "exh":
-			c20Enumerate(job.Len, job.Shard, job.NShards, func(word []int) {
+		case "exh", "exhf":
+			c20EnumerateExt(job.Len, job.Shard, job.NShards, job.Kind == "exhf", func(word []int) {
 				if s, ok := c20Concrete(word, job.Mode, job.Cap); ok {
 					batch = append(batch, s)
 					if len(sample) < 2 && len(batch) == 777 {
@@ -1071,7 +1149,7 @@ func c20Audit(ctx *Ctx, res *Result, tally *c20Tally) {
 // ---------- run / replay ----------
 
 func runC20(ctx *Ctx) *Result {
-	res := &Result{Rule: "scripts over {load f o, fix through a view, save a view, modify on disk + evict}: every canonical word of length L (= all words of length <= L as prefixes) over the 12-symbol alphabet {load a/b/c.mk x 2 option sets, fix/save through the last/previous view, rewrite a.mk/b.mk}, capacity 2 and 3, modes default/-f/-F, then seeded random scripts up to length 60 (5 cached files + 1 uncached, capacity 1-4, all five fix operations, removal, empty files); non-trivial = a script in which, according to the model run that matched the real run, at least one Load was served by the cache, missed because of other options, or made removeOldEntries run, or a save/modify evicted an entry (counted per script; the enumerated words are pairwise distinct, random scripts are deduplicated by their request string per worker); whole runs: 7 two/three-package scenarios x 7 sets of fixable lines x {default, -F, --show-autofix} x {explicit arguments, -r}, combined run against one fresh process per package, plus Main in process followed by a reload of every file still cached"}
+	res := &Result{Rule: "scripts over {load f o, fix through a view, save a view, modify on disk + evict}: every canonical word of length L (= all words of length <= L as prefixes) over the 12-symbol alphabet {load a/b/c.mk x 2 option sets, fix/save through the last/previous view, rewrite a.mk/b.mk}, capacity 2 and 3, modes default/-f/-F; every canonical word of length L-1 ending in a load over the 14-symbol alphabet (+ FAILING save through the last/previous view: a left-over .pkglint.tmp blocks the rewrite) that contains a failing save, mode -F; then seeded random scripts up to length 60 (5 cached files + 1 uncached, capacity 1-4, all five fix operations, removal, empty files); non-trivial = a script in which, according to the model run that matched the real run, at least one Load was served by the cache, missed because of other options, or made removeOldEntries run, or a save/modify evicted an entry (counted per script; the enumerated words are pairwise distinct, random scripts are deduplicated by their request string per worker); whole runs: 7 two/three-package scenarios x 7 sets of fixable lines x {default, -F, --show-autofix} x {explicit arguments, -r}, combined run against one fresh process per package, plus Main in process followed by a reload of every file still cached"}
 	tally := &c20Tally{}
 	// scratch directories of workers that were killed (timeout) are left on the tmpfs
 	if old, _ := filepath.Glob("/dev/shm/verif-c20-*"); len(old) > 0 {
@@ -1081,9 +1159,9 @@ func runC20(ctx *Ctx) *Result {
 			}
 		}
 	}
-	maxLen, randCount, randLen := 6, 3000, 60
+	maxLen, extLen, randCount, randLen := 6, 5, 3000, 60
 	if ctx.Tier == "thorough" {
-		maxLen, randCount = 7, 60000
+		maxLen, extLen, randCount = 7, 6, 60000
 	}
 	const nworkers = 16
 	jobs := make([][]c20Job, nworkers)
@@ -1093,6 +1171,9 @@ func runC20(ctx *Ctx) *Result {
 			for _, mode := range []string{"d", "s", "a"} {
 				jobs[w] = append(jobs[w], c20Job{Kind: "exh", Mode: mode, Cap: capacity, Len: maxLen, Shard: w, NShards: nworkers})
 			}
+		}
+		for _, capacity := range []int{2, 3} {
+			jobs[w] = append(jobs[w], c20Job{Kind: "exhf", Mode: "a", Cap: capacity, Len: extLen, Shard: w, NShards: nworkers})
 		}
 		jobs[w] = append(jobs[w], c20Job{Kind: "rand", Len: randLen, Seed: rng.Next(), Count: randCount / nworkers})
 	}
@@ -1114,13 +1195,18 @@ func runC20(ctx *Ctx) *Result {
 	if len(res.Violations) == 0 {
 		for k, floor := range map[string]int{"cache_hits": 1000, "miss_other_options": 1000, "overflow_removeOldEntries": 500,
 			"evict_removed_entry": 1000, "evict_swapped_with_last": 200, "loads_not_cached_suffix": 50, "dirty_loads_outside_guard": 200,
-			"saves_that_rewrote_a_file": 500, "loads_nil": 20, "whole_runs_that_rewrote_files": 10, "whole_run_later_package_with_diagnostics": 5, "end_of_run_cached_files_reloaded": 500} {
+			"saves_that_rewrote_a_file": 500, "saves_that_failed": 500, "loads_after_failed_save_of_that_file": 300, "loads_nil": 20, "whole_runs_that_rewrote_files": 10, "whole_run_later_package_with_diagnostics": 5, "end_of_run_cached_files_reloaded": 500} {
 			if tally.n[k] < floor {
-				res.Broken = fmt.Sprintf("coverage floor missed: %s = %d < %d", k, tally.n[k], floor)
+				// the implementation behaves in a way that keeps the scripts from reaching the
+				// branches the property names: a broken correspondence, not a broken check
+				res.AddViolation(Violation{Key: "C20/coverage-floor/" + k,
+					What:       fmt.Sprintf("coverage floor missed: %s = %d < %d", k, tally.n[k], floor),
+					FoundInput: false, Size: 1,
+					Replay:     map[string]any{"kind": "floor", "broken": "the scripts no longer reach " + k + " on this implementation"}})
 			}
 		}
 	}
-	res.Assumptions = []string{"file contents without backslash continuation lines (the joining is C09's model); ASCII", "no --only; no I/O errors while saving"}
+	res.Assumptions = []string{"file contents without backslash continuation lines (the joining is C09's model); ASCII", "no --only; a failing save is one whose temporary file cannot be created (O_EXCL); write/chmod/rename errors leave the loop through the same `continue`"}
 	return res
 }
 
